@@ -49,6 +49,10 @@ Shapes1 == { L(1), L(2), N("and", <<>>), N("or", <<>>) }
 Shapes2 == Shapes1 \cup { N(o, c) : o \in {"and", "or"}, c \in {<<a>> : a \in Shapes1} \cup {<<a, b>> : a \in Shapes1, b \in Shapes1} }
 Shapes3 == Shapes2 \cup { N(o, <<a, b>>) : o \in {"and", "or"}, a \in Shapes2 \ Shapes1, b \in {L(3), N("or", <<>>), N("and", <<L(1), L(3)>>)} }
          \cup { N(o, <<L(1), L(2), L(3)>>) : o \in {"and", "or"} }
+         \* a list of filters under an operator that is neither and nor or: the unknown operator allows nothing,
+         \* alone and inside the known groups
+         \cup { N("nope", c) : c \in {<<>>, <<L(1)>>, <<L(1), L(2)>>, <<N("and", <<>>)>>} }
+         \cup { N(o, <<a, N("nope", c)>>) : o \in {"and", "or"}, a \in {L(1), N("and", <<>>), N("or", <<>>)}, c \in {<<>>, <<L(2)>>, <<L(1), L(1)>>} }
 
 \* every leaf case is a state: the laws that concern one pair are invariants
 VARIABLE x
